@@ -1296,6 +1296,9 @@ func (c *chessCtx) checkC10(o *Obs, fen string, pFen, pPath *position.Position) 
 		c.disc("C10", "half-move-clock", "half-move-clock", o, fen, map[string]int{"engine": pPath.HalfMoveClock(), "spec": o.Hmc})
 	}
 	c.material(o.Mat, fen, pFen, o)
+	if len(o.Path) > 0 {
+		c.material(o.Mat, fen, pPath, o) // the position as the game reached it, with everything it keeps incrementally
+	}
 	if len(c.res.Samples["C10"]) < 3 && o.Rep > 0 {
 		c.res.sample("C10", map[string]interface{}{"root": o.Root, "path": uciList(o.Path), "earlier_occurrences": o.Rep, "hmc": o.Hmc})
 	}
